@@ -54,7 +54,7 @@ TRUSTED = ['CPython', 'NumPy', 'ECOS via rsome.eco_solver as the solver on both 
 KINDS_LP = ['bnd', 'lin', 'eq', 'abs', 'n1', 'ninf']
 KINDS_SOC = ['n2', 'sq', 'ssq', 'quad']
 KINDS_IP = ['p3', 'p52', 'pow', 'gm']
-KINDS_EXP = ['exp', 'ent', 'kl']
+KINDS_EXP = ['exp', 'ent', 'kl', 'xonly', 'entonly', 'klonly']
 KINDS = KINDS_LP + KINDS_SOC + KINDS_IP + KINDS_EXP
 PKINDS = ['pbox', 'pn1', 'pninf', 'pn2', 'pp3', 'pkl']
 TRIPLE_B = ['bnd', 'lin', 'abs', 'n2', 'p3', 'exp', 'kl']      # one used set per internal list (triples only)
@@ -250,6 +250,7 @@ def _seq_cases(thorough):
     plans = [('ro', RO_FULL, OPS_ALL, 4 if thorough else 3), ('ro', RO_CORE, OPS_CORE, 5 if thorough else 4),
              ('ro', RO_REFOR, OPS_ALL, 5 if thorough else 4),
              ('dro', DRO_Q1, OPS_DRO, 4 if thorough else 3), ('dro', DRO_Q2, OPS_DRO, 4 if thorough else 3)]
+    plans.append(('rox', ['x0', 'x1', 'x2', 'x3'], OPS_CORE, 4 if thorough else 3))   # exp-type constraints only
     if thorough:
         plans.append(('dro', DRO_SMALL, OPS_DRO, 4))
     for fe, decl, ops, depth in plans:
@@ -261,7 +262,8 @@ GRAPH_Q = [('ro', ['lin', 'exp', 'rdef', 'late'], ['P', 'D', 'S', 'Q', 'G']),
            ('ro', ['soc', 'ipc', 'rown', 'adapt'], ['P', 'D', 'S', 'Sd', 'G']),
            ('ro', ['refor', 'exp', 'adapt', 'rown'], ['P', 'D', 'Sd', 'Q']),
            ('dro', ['rob', 'ecn', 'lsupp'], ['P', 'D', 'S', 'G']),
-           ('dro', ['lprob', 'lprob0', 'lexp'], ['P', 'D', 'S'])]
+           ('dro', ['lprob', 'lprob0', 'lexp'], ['P', 'D', 'S']),
+           ('rox', ['x0', 'x1', 'x2'], ['P', 'D', 'S', 'Q'])]
 GRAPH_T = [('ro', ['lin', 'bnd', 'exp', 'rdef', 'late', 'adapt'], ['P', 'D', 'S', 'Sd', 'Q', 'G']),
            ('ro', ['soc', 'ipc', 'exp', 'rown', 'rdef', 'adapt'], ['P', 'D', 'S', 'Sd', 'Q', 'G']),
            ('dro', ['lin', 'soc', 'rob', 'ecn', 'evt'], ['P', 'D', 'S', 'G']),
@@ -296,6 +298,8 @@ def _order_cases(thorough):
 
 def _alias_cases():
     from ..ref import c09c15_alias as A        # pure-data part only
+    for fe, kind, order in A.pairs2():
+        yield {'family': 'alias2', 'fe': fe, 'kind': kind, 'order': order}
     for fe, kind, u1, u2 in A.pairs():
         yield {'family': 'alias', 'fe': fe, 'kind': kind, 'u1': u1, 'u2': u2}
 
@@ -451,4 +455,7 @@ def run_case(case):
     if fam == 'alias':
         from ..ref import c09c15_alias as A
         return A.run(case)
+    if fam == 'alias2':
+        from ..ref import c09c15_alias as A
+        return A.run2(case)
     raise ValueError(fam)
